@@ -569,6 +569,12 @@ class StructTree(Struct):
     def __init__(self, definition):  # pylint: disable=useless-super-delegation
         super().__init__(definition)
 
+    def has_default(self):
+        # The root of an enumerated-subtypes tree is not a value by itself:
+        # it cannot be serialized, so it must not be conjured up for an
+        # absent field either.
+        return False
+
 
 class Union(Composite):
     __slots__ = ("definition",)
